@@ -64,8 +64,13 @@ macro_rules! with_ty {
     };
 }
 
+/// the four constructors of ResourceId name the same slots: odd type indices go through the TypeId-taking ones
 fn rid(kty: u64, dynid: u64) -> ResourceId {
-    with_ty!(kty, T => if dynid == 0 { ResourceId::new::<T>() } else { ResourceId::new_with_dynamic_id::<T>(dynid) })
+    if kty % 2 == 1 {
+        with_ty!(kty, T => if dynid == 0 { ResourceId::from_type_id(TypeId::of::<T>()) } else { ResourceId::from_type_id_and_dynamic_id(TypeId::of::<T>(), dynid) })
+    } else {
+        with_ty!(kty, T => if dynid == 0 { ResourceId::new::<T>() } else { ResourceId::new_with_dynamic_id::<T>(dynid) })
+    }
 }
 fn ty_index(t: TypeId) -> u64 {
     if t == TypeId::of::<W0>() { 0 } else if t == TypeId::of::<W1>() { 1 } else if t == TypeId::of::<W2>() { 2 }
